@@ -4,7 +4,9 @@ pub mod fam;
 pub mod gen;
 pub mod json;
 pub mod kf;
+pub mod corpus;
 pub mod model;
+pub mod mutate;
 pub mod project;
 pub mod refdec;
 pub mod run;
